@@ -19,6 +19,10 @@ Proof. induction l as [|x l IH]; intros a Ha H; simpl; auto. rewrite H by (auto;
 Theorem gen_accuflux_eq ds sq data nodata : gen_accuflux ds sq data nodata = accuflux ds sq data nodata.
 Proof.
   unfold gen_accuflux, accuflux. apply fold_ext. intros a i. unfold gen_accuflux_step, accu_step, dsf, size.
+  (* nan = np.isnan(nodata) is false on integer-valued fields: the NaN conjunct `not (nan and (isnan or isnan))` is true.
+     The conjunct is matched syntactically first (`change` alone works up to conversion and would also accept `nan or ...`) *)
+  cbv zeta. lazymatch goal with |- context [negb (false && (false || false))] => idtac end.
+  change (negb (false && (false || false))) with true. rewrite andb_true_r.
   rewrite (Nat.eqb_sym i). reflexivity.
 Qed.
 
@@ -26,7 +30,9 @@ Qed.
 Theorem gen_accuflux_ds_eq ds sq data nodata : gen_accuflux_ds ds sq data nodata = accuflux_ds ds sq data nodata.
 Proof.
   unfold gen_accuflux_ds, accuflux_ds, sweep_down. apply fold_ext. intros a i.
-  unfold gen_accuflux_ds_step, dstep, accu_ds_f, dsf, size. rewrite (Nat.eqb_sym i).
+  unfold gen_accuflux_ds_step, dstep, accu_ds_f, dsf, size.
+  cbv zeta. lazymatch goal with |- context [negb (false && (false || false))] => idtac end.
+  change (negb (false && (false || false))) with true. rewrite andb_true_r. rewrite (Nat.eqb_sym i).
   destruct (negb (nth i ds (length ds) =? i)%nat && negb (nth (nth i ds (length ds)) data 0 =? nodata) && negb (nth i data 0 =? nodata)).
   - reflexivity.
   - symmetry. apply upd_same.
